@@ -174,15 +174,16 @@ YOUTUBE_DOMAINS = [
 ]
 YOUTUBE_VIDEO_ID_RE = re.compile(r"^[a-zA-Z0-9_-]{11}$")
 YOUTUBE_CHANNEL_ID_RE = re.compile(r"^UC[a-zA-Z0-9_-]{22}$")
+UNSAFE_URL_CHARS_RE = re.compile(r"[\t\r\n]")
 QUERY_V_RE = re.compile(QUERY_VALUE_TEMPLATE % r"v", re.I)
 NEXT_V_RE = re.compile(r"next=%2Fwatch%3Fv%3D([^%&#]+)", re.I)
 NESTED_NEXT_V_RE = re.compile(r"next%3D%252Fwatch%253Fv%253D([^%&#]+)", re.I)
 FRAGMENT_V_RE = re.compile(
     r"^(?:%2F|/)watch(?:%3F|\?)v(?:%3D|=)([a-zA-Z0-9_-]{11})", re.I
 )
-# NOTE: a playlist id stops at a "?" too: what follows could be taken for a
-# redirection hint once the id sits in the canonical url
-QUERY_LIST_RE = re.compile(r"list=([^&#?]+)", re.I)
+# NOTE: a playlist id stops at a "?" and at a "/" too: what follows could be
+# taken for a redirection hint once the id sits in the canonical url
+QUERY_LIST_RE = re.compile(r"list=([^&#?/]+)", re.I)
 
 YOUTUBE_VIDEO_URL_TEMPLATE = "https://www.youtube.com/watch?v=%s"
 YOUTUBE_USER_URL_TEMPLATE = "https://www.youtube.com/user/%s"
@@ -264,6 +265,10 @@ def parse_youtube_url(url, fix_common_mistakes=True):
 
     # Inferring redirection
     url = infer_redirection(url)
+
+    # NOTE: urlsplit drops tabs and line breaks wherever they are: the patterns
+    # below must read the url it will split
+    url = UNSAFE_URL_CHARS_RE.sub("", url)
 
     # Continuation urls
     m = NEXT_V_RE.search(url) or NESTED_NEXT_V_RE.search(url)
